@@ -58,10 +58,10 @@ PROPS = {
         "claimed": True,
         "technique": "Coq proof over R (case analysis over every decision path, nra/lra, extreme-value principle via Coquelicot/Ranalysis, induction over partitions) over programs translated from the compiled code; one re-indexing lemma transfers the cubic proofs to all axes",
         "level_text": "78 entry points. Quadratic (5 axes) and cubic (5 axes) *_inflection(s), min_*, max_*, *_bounds are translated (up to 188 control-flow paths each) and proved for ALL control points: reported inflections are zeros of the derivative in the unit interval and (cubic) every interior zero is reported; the min/max parameters lie in [0,1] and, whenever the coefficients the code compares with epsilon are exactly zero or exceed epsilon, NO point of the curve on [0,1] is lower/higher (via: a differentiable function on [0,1] attains its extrema at an end point or an interior critical point; quadratic-formula root lemmas). aabr/aabb (quadratic instances of the shared generic code, one free axis at a time) are proved to be the curve's coordinates at those parameters. The coarse phase of binary_search_point(_by_steps) returns a sample or the end point that is no farther than every other candidate (and the curve point of its parameter). length_by_discretization(n) equals the inscribed polyline length for n = 0..3 on all four curve types, and the polyline length is proved for EVERY n (induction) to be at least the chord and not to decrease when the segment count is doubled. None of these functions is executed by any unit test.",
-        "level_note": "Partial cells: optimality needs 'clean' coefficients (a coefficient in (0, eps] is treated as zero by the code and an extremum can then be missed by O(eps)); the refinement loop of binary_search_point (unbounded data-dependent iteration) is not translated: only the coarse phase is proved; cubic aabr/aabb instances (11468 paths) are not proved separately: they are the same generic code as the quadratic ones, composed with the cubic bounds proved above; the control-polygon upper bound of the length is not proved; for general step counts the loop shape (one segment per i = 0..step_count, up to the u16 maximum) is a hand-written model (model/PolyLen.v, theorems C15_loop_*) tied to the code by an extracted-model correspondence on step counts up to 65535. Trusted: Coq kernel; stdlib real-number axioms as printed; symx translator (self-checked each run, constant folding of literal sub-expressions in the pinned-axis entries); Rust parametricity. Exact real arithmetic.",
+        "level_note": "Partial cells: optimality needs 'clean' coefficients (a coefficient in (0, eps] is treated as zero by the code and an extremum can then be missed by O(eps)); the refinement loop of binary_search_point (unbounded data-dependent iteration) is not translated: its coarse phase is proved on the translated code, and the whole search (coarse phase + loop) is a hand-written model over exact rationals (model/BezierSearch.v, theorem C15_search_loop by induction over the fuel: the result is on the curve and no farther than the end point and every coarse sample) tied to the code by running the real generic code on exact dyadic rationals against the extracted model; cubic aabr/aabb instances (11468 paths) are not proved separately: they are the same generic code as the quadratic ones, composed with the cubic bounds proved above; the control-polygon upper bound of the length is not proved; for general step counts the loop shape (one segment per i = 0..step_count, up to the u16 maximum) is a hand-written model (model/PolyLen.v, theorems C15_loop_*) tied to the code by an extracted-model correspondence on step counts up to 65535. Trusted: Coq kernel; stdlib real-number axioms as printed; symx translator (self-checked each run, constant folding of literal sub-expressions in the pinned-axis entries); Rust parametricity. Exact real arithmetic.",
         "design_ref": "DESIGN.md section 7, C15",
         "assumptions": ["scalars are exact real numbers; T::epsilon() is an arbitrary positive real", "optimality statements assume the epsilon-compared coefficients are exactly zero or larger than epsilon in absolute value"],
-        "trusted_extra": ["Coq extraction to OCaml of model/PolyLen.v (Require Import ExtrOcamlBasic only; N, positive stay the extracted Coq datatypes) plus extract/driver_len.ml and the harness symx/src/corr_len.rs"],
+        "trusted_extra": ["Coq extraction to OCaml of model/PolyLen.v (Require Import ExtrOcamlBasic only; N, positive stay the extracted Coq datatypes) plus extract/driver_len.ml and the harness symx/src/corr_len.rs", "Coq extraction to OCaml of model/BezierSearch.v (ExtrOcamlBasic only; Q, Z, positive stay the extracted Coq datatypes; results normalised with the extracted Qred) plus extract/driver_bsearch.ml, the exact dyadic scalar symx/src/dyadic.rs and the harness symx/src/corr_bsearch.rs"],
         "coq_timeout": 1700,
     },
     "C03": {
@@ -237,7 +237,10 @@ def extra_C15(tier, seed, ROOT, SYMX, sh):
     problems, extra, wit = run_corr("len", "PolyLen", tier, seed, ROOT, sh,
         "length_by_discretization(step_count) does not sum one segment per parameter (i+1)/(step_count+1), i = 0..step_count, ending at 1 (extracted Coq model PolyLen)",
         "step counts 0, 1, 2, 3, 7, 100, 255, 256, 1000, 65533, 65534, 65535 (thorough: more) on the quadratic and cubic 2D curves: the real code is run on the symbolic scalar, the number of distinct square roots and the largest parameter numerator are read from the recorded DAG; a panic (u16 overflow with overflow checks) is an outcome")
-    return problems, {"length_loop_correspondence": extra}, wit
+    p2, e2, w2 = run_corr("bsearch", "BezierSearch", tier, seed, ROOT, sh,
+        "binary_search_point / binary_search_point_by_steps returned a different (parameter, point) than the extracted Coq model BezierSearch (coarse phase + refinement loop), for which C15_search_loop is proved",
+        "the real generic code instantiated on exact dyadic rationals (symx/src/dyadic.rs): 1500 (thorough 20000) seeded cases per curve type (quadratic/cubic x 2D/3D): control points and query on a 1/4 grid in [-16,16], half interval in {1/2,1/4,1/8,3/16,1/16}, epsilon in {1/4..1/64}, 0-3 coarse samples at multiples of 1/8 in [-1/4,5/4] (one in six off the curve), one case in four through _by_steps with 1, 2, 4 or 8 steps; results compared as reduced fractions")
+    return problems + p2, {"length_loop_correspondence": extra, "search_loop_correspondence": e2, "traces_validated_against_impl": extra["cases"] + e2["cases"]}, wit + w2
 
 def extra_C18(tier, seed, ROOT, SYMX, sh):
     problems, extra, wit = run_corr("c18", "Containers", tier, seed, ROOT, sh,
